@@ -66,8 +66,17 @@ class Box:
         new_start_coord = np.subtract(new_start_coord, concat_offsets)
         new_end_coord = np.subtract(new_end_coord, concat_offsets)
 
+        # If the current op was combined with a split slice read then it reads the region of the IFM that starts at
+        # split_offset and has the extent split_shape. Where the OFM box is mapped through strides and skirt (width
+        # and height) the mapping is done relative to that region, whose edges are where the padding starts, and the
+        # read offset is added afterwards. All other coordinates are offset directly.
+        region_relative = split_offset is not None and strides is not None and skirt is not None
+        ifm_width = split_shape[-2] if region_relative else ifm_shape.width
+        ifm_height = split_shape[-3] if region_relative else ifm_shape.height
         if split_offset is not None:
             for idx in range(len(split_offset)):
+                if region_relative and idx in (len(split_offset) - 3, len(split_offset) - 2):
+                    continue
                 new_start_coord[idx] += split_offset[idx]
                 new_end_coord[idx] += split_offset[idx]
 
@@ -83,24 +92,21 @@ class Box:
         if len(new_end_coord) >= 1:
             new_end_coord[-1] = min(new_end_coord[-1], ifm_shape.depth)
         if len(new_end_coord) >= 2:
-            new_end_coord[-2] = min(new_end_coord[-2], ifm_shape.width * upscaling_factor)
+            new_end_coord[-2] = min(new_end_coord[-2], ifm_width * upscaling_factor)
         if len(new_end_coord) >= 3:
             original_end_coord = list(new_end_coord)
-            new_end_coord[-3] = min(new_end_coord[-3], ifm_shape.height * upscaling_factor)
+            new_end_coord[-3] = min(new_end_coord[-3], ifm_height * upscaling_factor)
 
         pad_top = 0
         pad_bottom = 0
         if strides is not None and skirt is not None:
             if len(new_start_coord) >= 2:
                 stride = strides[2]
-                # if the current op was combined with a split slice read then the valid ifm range is given by the output
-                # of the split op (which is defined by the read offset and the read shape)
-                if split_offset is None:
-                    new_start_coord[-2] = max(new_start_coord[-2] * stride - skirt[1], 0)
-                    new_end_coord[-2] = min(new_end_coord[-2] * stride + skirt[3], ifm_shape.width)
-                else:
-                    new_start_coord[-2] = max(new_start_coord[-2] * stride - skirt[1], split_offset[-2])
-                    new_end_coord[-2] = min(new_end_coord[-2] * stride + skirt[3], split_offset[-2] + split_shape[-2])
+                new_start_coord[-2] = max(new_start_coord[-2] * stride - skirt[1], 0)
+                new_end_coord[-2] = min(new_end_coord[-2] * stride + skirt[3], ifm_width)
+                if region_relative:
+                    new_start_coord[-2] += split_offset[-2]
+                    new_end_coord[-2] += split_offset[-2]
 
             if len(new_start_coord) >= 3:
                 stride = strides[1]
@@ -116,22 +122,23 @@ class Box:
                 pad_top = max(0, 0 - new_start_coord[-3]) + skirt_top_remainder
                 new_start_coord[-3] = max(new_start_coord[-3], 0)
 
-                if (ofm_end_y * stride + skirt[2]) > (ifm_shape.height * upscaling_factor):
+                if (ofm_end_y * stride + skirt[2]) > (ifm_height * upscaling_factor):
                     # pad_bottom is calculated based the diff between the end position of the weight kernel,
                     # after last stride and the ifm height.
-                    if upscaling_factor != 1 and original_end_coord[-3] > ifm_shape.height * upscaling_factor:
+                    if upscaling_factor != 1 and original_end_coord[-3] > ifm_height * upscaling_factor:
                         # Special case for Transpose Convolution with VALID padding.
-                        pad_bottom = original_end_coord[-3] - (ifm_shape.height * upscaling_factor)
+                        pad_bottom = original_end_coord[-3] - (ifm_height * upscaling_factor)
                     else:
                         k_start = new_start_coord[-3] - pad_top
-                        pad_bottom = max(
-                            0, k_start + total_stride + k_dilated_height - (ifm_shape.height * upscaling_factor)
-                        )
+                        pad_bottom = max(0, k_start + total_stride + k_dilated_height - (ifm_height * upscaling_factor))
 
                 # Adjust for upscaling
                 new_start_coord[-3] = max(new_start_coord[-3] // upscaling_factor, 0)
                 new_end_coord[-3] = new_end_coord[-3] * stride + skirt[2] + (skirt[2] % upscaling_factor)
-                new_end_coord[-3] = max(min(new_end_coord[-3] // upscaling_factor, ifm_shape.height), 1)
+                new_end_coord[-3] = max(min(new_end_coord[-3] // upscaling_factor, ifm_height), 1)
+                if region_relative:
+                    new_start_coord[-3] += split_offset[-3]
+                    new_end_coord[-3] += split_offset[-3]
 
         # Wrap the IFMs of broadcasted binary elementwise ops
         # at the limits of the non-broadcasted volumes
